@@ -121,6 +121,17 @@ func (e *enc) call(x *ssa.Call) {
 	if !inRepo(callee) || callee.Blocks == nil {
 		// external function without a contract: deterministic, side-effect free on tracked memory (assumption), result unconstrained by anything but determinism
 		e.extUsed[name+" (uninterpreted)"] = true
+		// what a pointer argument (also one boxed into an interface) points to may be overwritten
+		for _, a := range c.Args {
+			if mi, ok := a.(*ssa.MakeInterface); ok {
+				a = mi.X
+			}
+			if _, isPtr := a.Type().Underlying().(*types.Pointer); isPtr && !isNodeType(a.Type()) {
+				if l, ok := fr.loc[a]; ok {
+					e.havocLoc(l)
+				}
+			}
+		}
 		e.summarise(x, callee, args)
 		return
 	}
